@@ -327,6 +327,38 @@ def handle (op : String) (fs : List (String × String)) : String :=
       let want := applyLig (ligTable cmap) seq0.length seq0
       if want.map (fun g => (g.gid, g.text)) == got.map (fun g => (g.gid, g.text)) then "ok" else "bad"
     | _, _, _ => "bad-case"
+  else if op == "layout.kernadv" then
+    -- D: kern-only font: advance of every glyph = hmtx width + SPEC kern value of (glyph, next glyph)
+    match (getField fs "subs").bind parseSubs, (getField fs "kern").bind fromHex,
+          (getField fs "gids").bind (natList ","), (getField fs "w").bind parseNatMap,
+          (getField fs "ng").bind String.toNat? with
+    | some subs, some data, some gids, some w, some ng =>
+      if encKern subs != data then "bad:encoding"
+      else
+        let width := widthFn ng w
+        let rec go : List Nat → List String
+          | a :: b :: r => s!"{a}/{wrap16 (width a + kernSpec subs (a, b))}" :: go (b :: r)
+          | [a] => [s!"{a}/{width a}"]
+          | [] => []
+        "ok:" ++ ";".intercalate (go gids)
+    | _, _, _, _, _ => "bad-case"
+  else if op == "layout.alias" then
+    -- D: feature records sharing a feature table (OpenType: "offset to Feature table" per record): each
+    -- record keeps its OWN tag and has the lookups of the table it points to; lookup k substitutes
+    -- src[k] -> src[k]+300
+    match parseFind fs, (getField fs "alias").bind parseNatMap, (getField fs "src").bind (natList ","),
+          (getField fs "gids").bind (natList ",") with
+    | some c, some alias, some src, some gids =>
+      let feats := (List.range c.feats.length).zip c.feats |>.map fun (j, f) =>
+        match alias.find? (·.1 == j) with
+        | some a => (⟨f.tag, (c.feats[a.2]?.map (·.lookups)).getD []⟩ : Feature)
+        | none => f
+      let ll := findLookups (constMatcher c.chosen) c.scripts feats c.nl
+        (switchFn (effective Gen.gsubDefaultFeatures c.sw))
+      let out := gids.map fun g =>
+        if ((List.range src.length).zip src).any (fun (k, sg) => sg == g && ll.contains k) then g + 300 else g
+      s!"lookups={natsToString ll};gids={natsToString out}"
+    | _, _, _, _ => "bad-case"
   else if op == "layout.trivial" then
     match (getField fs "map").bind parseNatMap, (getField fs "w").bind parseNatMap,
           (getField fs "text").bind (natList ","), (getField fs "got").bind parseGlyphs,
